@@ -1,6 +1,291 @@
-//! C15 — stub (to be implemented).
+//! C15 — corrupt or hostile input is reported as an error, never a panic (abort, stack overflow, endless loop).
+//!
+//! See the `rule` text in `main` and `/verif/DESIGN.md` §6/§12 for what is explored. Every probe (one mutated
+//! input handed to one reader API) runs in a forked batch process under a panic hook, a CPU timer and an
+//! allocation monitor (`forkrun`, `alloc`).
+
+mod alloc;
+mod cramfmt;
+mod forkrun;
+mod mutate;
+mod sigs;
+mod world;
+
+use std::sync::atomic::Ordering::Relaxed;
+
+use corpus::{Kind, Variant};
+use serde_json::{Value, json};
+use vcore::{CaseOut, Ctx, Report, guard, rng::fnv1a, run_cases};
+
+use crate::{
+    forkrun::{Limits, OC_NAMES, ProbeOut},
+    mutate::{Layer, SUBST_NAMES},
+    world::World,
+};
+
+#[global_allocator]
+static GLOBAL: alloc::Mon = alloc::Mon;
+
+#[derive(Clone, Debug)]
+enum Case {
+    /// every item of the deterministic corpus, unmutated, every reader API: must read to END; measures the CPU
+    /// time of the slowest valid input
+    Baseline,
+    /// probes `from..to` of the deterministic enumeration of (item, layer)
+    Det { item: usize, layer: Layer, from: usize, to: usize },
+}
+
+fn case_json(w: &World, c: &Case) -> Value {
+    match c {
+        Case::Baseline => json!({"case": "baseline"}),
+        Case::Det { item, layer, from, to } => {
+            json!({"case": "det", "item": w.items[*item].item.name, "layer": layer.name(), "from": from, "to": to})
+        }
+    }
+}
+
+pub fn variant_name(v: Variant) -> &'static str {
+    match v {
+        Variant::Primary => "primary",
+        Variant::Eager => "eager",
+        Variant::Indexer => "indexer",
+    }
+}
+
+/// Classifies the end of a transcript.
+pub fn outcome_of_transcript(t: &[String]) -> usize {
+    match t.last().map(String::as_str) {
+        Some("END") => forkrun::OC_END,
+        Some("ERR:InvalidData") => forkrun::OC_ERR_INVALID_DATA,
+        Some("ERR:UnexpectedEof") => forkrun::OC_ERR_EOF,
+        Some("ERR:InvalidInput") => forkrun::OC_ERR_INVALID_INPUT,
+        _ => forkrun::OC_ERR_OTHER,
+    }
+}
+
+/// One reader run under the panic monitor.
+pub fn read_probe(kind: Kind, variant: Variant, bytes: &[u8], side: &corpus::Side) -> Result<usize, guard::PanicInfo> {
+    guard::catch(|| {
+        let t = corpus::transcript_read_variant(kind, variant, bytes, side, true, corpus::DEFAULT_CAP);
+        outcome_of_transcript(&t)
+    })
+}
+
+fn gen_cases(ctx: &Ctx, w: &World) -> Vec<Case> {
+    let mut cases = vec![Case::Baseline];
+    let only = ctx.param("only");
+    for (i, it) in w.items.iter().enumerate() {
+        if let Some(o) = only {
+            if !it.item.name.contains(o) {
+                continue;
+            }
+        }
+        for &layer in &it.layers {
+            let n = w.det_probe_count(i, layer);
+            let batch = w.det_batch_size(i, layer);
+            let mut from = 0;
+            while from < n {
+                let to = (from + batch).min(n);
+                cases.push(Case::Det { item: i, layer, from, to });
+                from = to;
+            }
+        }
+    }
+    cases
+}
+
+fn run_case(ctx: &Ctx, w: &World, idx: u64, c: &Case) -> CaseOut {
+    let mut o = CaseOut::new();
+    let limits = Limits {
+        cpu_budget_s: ctx.param("cpu_budget_s").and_then(|s| s.parse().ok()).unwrap_or(if ctx.quick() { 20.0 } else { 60.0 }),
+        rlimit_as: ctx.budget("rlimit_as_mib", 6144, 6144) << 20,
+    };
+    let errfile = ctx.work.join(format!("batch-{}-{idx}.stderr", std::process::id()));
+    let (prefix, slot_names, batch): (String, Vec<String>, forkrun::BatchOut) = match c {
+        Case::Baseline => {
+            let n = w.items.len();
+            let run_one = |k: usize| -> ProbeOut {
+                let it = &w.items[k];
+                let mut worst = forkrun::OC_END;
+                let mut violation = None;
+                for &v in it.item.kind.variants() {
+                    let t0 = guard::thread_cpu_s();
+                    let r = read_probe(it.item.kind, v, &it.item.bytes, &it.item.side);
+                    let dt = ((guard::thread_cpu_s() - t0) * 1e6) as u64;
+                    if let Some(sh) = alloc::shared() {
+                        sh.max_valid_cpu_us.fetch_max(dt, Relaxed);
+                    }
+                    match r {
+                        Ok(oc) if oc == forkrun::OC_END => {}
+                        Ok(oc) => {
+                            worst = oc;
+                            violation = Some((
+                                format!("harness:valid-item-not-read-to-end:{}:{}", it.item.kind.name(), variant_name(v)),
+                                format!("the unmutated corpus item {} does not read to END ({}); this is a corpus/harness problem, not a C15 finding", it.item.name, OC_NAMES[oc]),
+                                Value::Null,
+                            ));
+                        }
+                        Err(p) => {
+                            worst = forkrun::OC_PANIC;
+                            violation = Some((
+                                format!("panic:{}", sigs::site_sig(&p)),
+                                format!("reader panicked on the VALID corpus item {} ({}): {} at {}:{}", it.item.name, variant_name(v), p.message, p.file, p.line),
+                                json!({"item": it.item.name}),
+                            ));
+                        }
+                    }
+                }
+                ProbeOut { slot: 0, oc: worst, violation }
+            };
+            let describe = |k: usize| (0usize, format!("{}:valid-input", w.items[k].item.kind.name()), json!({"item": w.items[k].item.name}));
+            ("valid".to_string(), vec!["all-variants".to_string()], forkrun::run_batch(n, &limits, &errfile, &run_one, &describe))
+        }
+        Case::Det { item, layer, from, to } => {
+            let it = &w.items[*item];
+            let variants = it.item.kind.variants();
+            let nv = variants.len();
+            let cache: std::cell::RefCell<(usize, Vec<u8>)> = std::cell::RefCell::new((usize::MAX, Vec::new()));
+            let run_one = |k: usize| -> ProbeOut {
+                let k = from + k;
+                let (m, vi) = (k / nv, k % nv);
+                let (pos, which) = w.det_mutation(*item, *layer, m);
+                {
+                    let mut c = cache.borrow_mut();
+                    if c.0 != m {
+                        c.1 = w.det_bytes(*item, *layer, pos, which);
+                        c.0 = m;
+                    }
+                }
+                let c = cache.borrow();
+                let slot = which * nv + vi;
+                match read_probe(it.item.kind, variants[vi], &c.1, &it.item.side) {
+                    Ok(oc) => ProbeOut { slot, oc, violation: None },
+                    Err(p) => ProbeOut {
+                        slot,
+                        oc: forkrun::OC_PANIC,
+                        violation: Some((
+                            format!("panic:{}", sigs::site_sig(&p)),
+                            format!(
+                                "{} reader ({}) panicked: {} at {}:{} — input = item {} at layer {}, byte {} {} (file of {} bytes)",
+                                it.item.kind.name(), variant_name(variants[vi]), p.message, p.file, p.line, it.item.name, layer.name(), pos, SUBST_NAMES[which], c.1.len()
+                            ),
+                            json!({"item": it.item.name, "layer": layer.name(), "pos": pos, "subst": SUBST_NAMES[which], "variant": variant_name(variants[vi]),
+                                   "bytes_hex": if c.1.len() <= 6000 { Value::String(vcore::report::hex(&c.1)) } else { Value::Null }}),
+                        )),
+                    },
+                }
+            };
+            let describe = |k: usize| {
+                let k = from + k;
+                let (m, vi) = (k / nv, k % nv);
+                let (pos, which) = w.det_mutation(*item, *layer, m);
+                (
+                    which * nv + vi,
+                    format!("{}:{}", it.item.kind.name(), variant_name(variants[vi])),
+                    json!({"item": it.item.name, "layer": layer.name(), "pos": pos, "subst": SUBST_NAMES[which], "variant": variant_name(variants[vi])}),
+                )
+            };
+            let mut names = vec![];
+            for s in SUBST_NAMES {
+                for v in variants {
+                    names.push(format!("{s}/{}", variant_name(*v)));
+                }
+            }
+            (format!("{}|{}", it.item.kind.name(), layer.name()), names, forkrun::run_batch(to - from, &limits, &errfile, &run_one, &describe))
+        }
+    };
+    let _ = std::fs::remove_file(&errfile);
+    fold_batch(&mut o, &prefix, &slot_names, batch);
+    o
+}
+
+fn fold_batch(o: &mut CaseOut, prefix: &str, slot_names: &[String], b: forkrun::BatchOut) {
+    let mut total = 0;
+    for (i, row) in b.matrix.iter().enumerate() {
+        let rowsum: u64 = row.iter().sum();
+        if rowsum == 0 {
+            continue;
+        }
+        let sname = slot_names.get(i).map(String::as_str).unwrap_or("?");
+        o.count(&format!("probes[{prefix}|{}]", sname.split('/').next().unwrap_or(sname)), rowsum);
+        for (j, &n) in row.iter().enumerate() {
+            if n > 0 {
+                total += n;
+                o.count(&format!("outcome[{}]", OC_NAMES[j]), n);
+                o.count(&format!("outcome_by_kind[{}|{}]", prefix.split('|').next().unwrap_or(prefix), OC_NAMES[j]), n);
+                o.fps.push(fnv1a(format!("{prefix}|{sname}|{}", OC_NAMES[j]).as_bytes()));
+            }
+        }
+    }
+    let resource: u64 = b.matrix.iter().map(|r| r[forkrun::OC_RESOURCE]).sum();
+    // probes that ended in a refused allocation are not evaluations
+    o.evaluations = total - resource;
+    o.count("batch_process_forks", b.forks);
+    o.count("allocations_observed_ge_observe_threshold", b.observed_big);
+    o.count("allocations_refused_resource_limit", resource);
+    o.max("max_allocation_request_observed", b.observed_max);
+    o.max("max_probe_cpu_us", b.max_probe_cpu_us);
+    o.max("max_valid_case_cpu_us", b.max_valid_cpu_us);
+    for (sig, desc, wit) in b.violations {
+        o.fps.push(fnv1a(sig.as_bytes()));
+        o.violation_with(sig, desc, wit);
+    }
+    for n in b.notes {
+        o.inconclusive.push(n);
+    }
+    if let Some(r) = b.resource_limited.first() {
+        if resource > 0 {
+            o.count("resource_limited_examples", 0);
+            let _ = r;
+        }
+    }
+}
 
 fn main() {
-    eprintln!("c15: not implemented");
-    std::process::exit(2);
+    let ctx = Ctx::from_args();
+    let ctx = vcore::cases::replay_request(&ctx).map(|r| r.1).unwrap_or(ctx);
+    sigs::install_hook();
+    if let Some(v) = ctx.param("alloc_observe_mib").and_then(|s| s.parse::<usize>().ok()) {
+        alloc::OBSERVE.store(v << 20, Relaxed);
+    }
+    if let Some(v) = ctx.param("alloc_refuse_mib").and_then(|s| s.parse::<usize>().ok()) {
+        alloc::REFUSE.store(v << 20, Relaxed);
+    }
+    let mut rep = Report::new("(rule text filled in below)");
+    let w = World::build(&ctx);
+    if ctx.param("mode") == Some("list") {
+        w.list();
+        std::process::exit(0);
+    }
+    if ctx.param("mode") == Some("one") {
+        // diagnosis: one probe in-process, no panic guard, no fork
+        let name = ctx.param("item").expect("item=");
+        let layer = Layer::from_name(ctx.param("layer").unwrap_or("outer")).expect("layer");
+        let pos: usize = ctx.param("pos").expect("pos=").parse().unwrap();
+        let which = SUBST_NAMES.iter().position(|s| Some(*s) == ctx.param("subst")).expect("subst=");
+        let variant = match ctx.param("variant") {
+            Some("eager") => Variant::Eager,
+            Some("indexer") => Variant::Indexer,
+            _ => Variant::Primary,
+        };
+        let it = w.items.iter().find(|i| i.item.name == name).expect("item not in the deterministic corpus");
+        let bytes = it.mutated(layer, pos, which);
+        if let Some(p) = ctx.param("dump") {
+            std::fs::write(p, &bytes).unwrap();
+        }
+        alloc::DIAG_PANIC.store(1, Relaxed);
+        alloc::map_shared();
+        let _ = std::panic::take_hook();
+        let t = corpus::transcript_read_variant(it.item.kind, variant, &bytes[..], &it.item.side, true, corpus::DEFAULT_CAP);
+        for e in t.iter().rev().take(4).rev() {
+            println!("{}", &e[..e.len().min(300)]);
+        }
+        println!("last error: {:?}", corpus::last_error_message());
+        std::process::exit(0);
+    }
+    let cases = gen_cases(&ctx, &w);
+    let f = |i: u64| -> CaseOut { run_case(&ctx, &w, i, &cases[i as usize]) };
+    run_cases(&ctx, &mut rep, cases.len() as u64, 600.0, &f, &|i| case_json(&w, &cases[i as usize]));
+    rep.extra.insert("cases".into(), json!(cases.len()));
+    rep.finish(&ctx);
 }
